@@ -156,6 +156,26 @@ Proof.
   unfold bad_free; cbn. destruct (bad Panic); [specialize (Hb eq_refl); discriminate | reflexivity].
 Qed.
 
+(* updateEventUsers only ever turns a "sessionId" into a string: entries that pass
+   the validation still pass ClientSession.filterMessage after the rewriting *)
+Lemma update_users_keeps_sid : forall l, forallb is_sid l = true -> forallb is_sid (update_users l) = true.
+Proof.
+  induction l as [|u r IH]; intros H; [reflexivity|].
+  cbn [forallb] in H. apply andb_prop in H. destruct H as [Hu Hr].
+  cbn [update_users]. destruct (is_own (entry_id u)).
+  - destruct u as [|up lo a]; [discriminate Hu|]. cbn [forallb is_sid is_str]. exact Hr.
+  - cbn [forallb]. rewrite Hu, (IH Hr). reflexivity.
+Qed.
+
+Lemma validated_update_passes_session : forall sid u,
+  forallb is_sid (u_users u ++ u_changed u) = true -> session_filter_panics (rewrite_update sid u) = false.
+Proof.
+  intros sid u H. unfold session_filter_panics, rewrite_update.
+  destruct sid; [|rewrite H; reflexivity].
+  cbn [u_users u_changed]. rewrite forallb_app in H |- *. apply andb_prop in H. destruct H as [H1 H2].
+  rewrite (update_users_keeps_sid _ H1), (update_users_keeps_sid _ H2). reflexivity.
+Qed.
+
 Lemma process_event_bf : forall bad v s m e, cond bad v ->
   (bad Panic = true -> valid_event e = true) ->
   bad_free bad (fst (process_event s m e)).
@@ -167,7 +187,7 @@ Proof.
     try (apply panic_if_bf; [intros Hb; specialize (Hv Hb); rewrite Hv; try reflexivity; rewrite ?andb_false_r; reflexivity | exact Hf]).
   - (* participants / update *)
     destruct (e_update e) as [u|].
-    + cbn [fst]. apply panic_if_bf; [|exact Hf]. intros Hb. rewrite (Hv Hb). reflexivity.
+    + cbn [fst]. apply panic_if_bf; [|exact Hf]. intros Hb. apply validated_update_passes_session. exact (Hv Hb).
     + cbn [fst]. unfold bad_free; cbn. destruct (bad Panic); [specialize (Hv eq_refl); discriminate | reflexivity].
   - (* room / join *)
     destruct (forallb non_nil (e_join e)) eqn:Ej; cbn [negb].
@@ -879,3 +899,131 @@ Proof. exists [ORecv welcome_ok; ORecvFail wrong_id]. exact original_sticks. Qed
 Lemma close_refuted : exists ops, out_of (run original (init false) ops) = Panic /\
   forallb (fun o => match o with ORecvFail m => valid m | _ => true end) ops = true.
 Proof. exists [ORecvFail welcome_nofed]. split; [exact original_panics_on_close | reflexivity]. Qed.
+
+(* ---- the path into the local session: entries of update.users / update.changed ----------------
+   A forwarded participants/update event is handed to ClientSession.SendMessage, whose
+   filterMessage reads entry["sessionId"].(string) of every entry without a check, in the
+   federation read goroutine.  The lemmas say exactly which messages bring the code without
+   the validation down there, that the validation excludes exactly those (up to the one
+   entry updateEventUsers repairs), and that a validation looking at another member
+   ("sessionid", which updateEventUsers accepts as well) would not do. *)
+Definition upd_event (g : etarget) (u : upd_s) : server_msg :=
+  mkM TEvent IdOther None None None false None None None
+    (Some (mkE g YUpdate [] [] [] false false false false (Some u) false false)) false false false.
+
+(* code without the validation, after the hello: a participants/update event ends the
+   process iff, after updateEventUsers, some entry has no string "sessionId" *)
+Lemma session_path_exact : forall v wf s m e u,
+  v_valid v = false -> hello_done s = true ->
+  m_tag m = TEvent -> m_event m = Some e ->
+  e_target e = GParticipants -> e_type e = YUpdate -> e_update e = Some u ->
+  (out_of (recv v wf s m) = Panic <-> session_filter_panics (rewrite_update (remote_sid s) u) = true).
+Proof.
+  intros v wf s m e u Hv Hh Ht He Hg Hy Hu.
+  unfold recv. rewrite Hv, Hh. cbn [andb].
+  unfold process_message. rewrite Ht, He. unfold process_event. rewrite Hg, Hy, Hu.
+  unfold panic_if. destruct (session_filter_panics (rewrite_update (remote_sid s) u)).
+  - cbn. split; reflexivity.
+  - unfold forward. rewrite Ht. cbn. split; discriminate.
+Qed.
+
+(* what the validation demands of the entries is enough in every state ... *)
+Lemma validated_entries_safe : forall sid e u,
+  e_target e = GParticipants -> e_type e = YUpdate -> e_update e = Some u ->
+  valid_event e = true -> session_filter_panics (rewrite_update sid u) = false.
+Proof.
+  intros sid e u Hg Hy Hu Hv. unfold valid_event in Hv. rewrite Hg, Hy, Hu in Hv.
+  apply validated_update_passes_session. exact Hv.
+Qed.
+
+(* ... and not more than needed: an entry the validation rejects takes the process down
+   as the only entry of users or of changed, unless it is the one entry updateEventUsers
+   gives a "sessionId" (its id, possibly under "sessionid", is the remote id of the
+   federated session and that id is known) *)
+Lemma rejected_entry_crashes : forall v wf s x in_changed,
+  v_valid v = false -> hello_done s = true ->
+  is_sid x = false -> (remote_sid s = false \/ is_own (entry_id x) = false) ->
+  out_of (recv v wf s (upd_event GParticipants (if in_changed : bool then mkU [x] [] else mkU [] [x]))) = Panic.
+Proof.
+  intros v wf s x ic Hv Hh Hx Hown.
+  set (u := if ic then mkU [x] [] else mkU [] [x]).
+  apply <- (session_path_exact v wf s (upd_event GParticipants u)
+              (mkE GParticipants YUpdate [] [] [] false false false false (Some u) false false) u);
+    try reflexivity; try assumption.
+  subst u.
+  unfold session_filter_panics, rewrite_update.
+  assert (Hupd : remote_sid s = true -> update_users [x] = [x]).
+  { intros Hs. destruct Hown as [Hn|Hn]; [rewrite Hn in Hs; discriminate|]. cbn. rewrite Hn. reflexivity. }
+  destruct (remote_sid s) eqn:Es.
+  - destruct ic; cbn [u_users u_changed]; rewrite (Hupd eq_refl);
+      change (update_users []) with (@nil uentry); cbn [app forallb]; rewrite Hx; reflexivity.
+  - destruct ic; cbn [u_users u_changed app forallb]; rewrite Hx; reflexivity.
+Qed.
+
+(* the joined state, with and without a session id from the remote *)
+Definition joined_sid : fstate := after false [welcome_ok; hello_ok].
+Definition joined_nosid : fstate := after false [welcome_ok; hello_nosid].
+Definition no_validation : variant := mkV false true true.
+
+(* the entry of a lower-case only id, {"sessionid":"x"}: accepted by updateEventUsers,
+   fatal in the session *)
+Definition lower_only : uentry := UEnt VNone VStr ANone.
+Lemma lowercase_entry_panics :
+  out_of (recv no_validation false joined_sid (upd_event GParticipants (mkU [] [lower_only]))) = Panic /\
+  out_of (recv no_validation false joined_sid (upd_event GParticipants (mkU [lower_only] [USid]))) = Panic /\
+  out_of (recv no_validation false joined_nosid (upd_event GParticipants (mkU [] [UEnt VNone VOwn ANone]))) = Panic /\
+  (* the own id is repaired once per list *)
+  out_of (recv no_validation false joined_sid (upd_event GParticipants (mkU [UEnt VNone VOwn ANone] [UEnt VBad VOwn ANone]))) = Ok /\
+  out_of (recv no_validation false joined_sid (upd_event GParticipants (mkU [] [UEnt VNone VOwn ANone; UEnt VNone VOwn ANone]))) = Panic /\
+  (* the repaired code ignores all of them *)
+  recv repaired false joined_sid (upd_event GParticipants (mkU [] [lower_only])) = (joined_sid, [], Ok).
+Proof. vm_compute. repeat split; reflexivity. Qed.
+
+(* a validation that accepts an entry because of its "sessionid" is not enough: whatever
+   else it checks, if it lets the lower-case only entry through the process ends *)
+Lemma lower_case_validation_unsound : forall s wf,
+  hello_done s = true ->
+  out_of (recv no_validation wf s (upd_event GParticipants (mkU [] [lower_only]))) = Panic.
+Proof.
+  intros s wf Hh. apply (rejected_entry_crashes no_validation wf s lower_only false eq_refl Hh eq_refl).
+  right. reflexivity.
+Qed.
+
+(* enumeration: all entries (null, and every combination of the two id members; actor
+   members on the diagonal), users lists of length <= 2, changed lists of length <= 1,
+   targets participants and roomlist, all seven stages *)
+Definition all_sidv := [VNone; VBad; VOwn; VStr].
+Definition all_entries : list uentry :=
+  UNil :: flat_map (fun up => map (fun lo => UEnt up lo ANone) all_sidv) all_sidv ++
+  [UEnt VStr VNone AUser; UEnt VNone VStr AFedLocal; UEnt VOwn VBad ABadId; UEnt VBad VOwn ABadType].
+Definition lists_le2 {A} (l : list A) : list (list A) :=
+  [] :: map (fun x => [x]) l ++ flat_map (fun x => map (fun y => [x; y]) l) l.
+Definition lists_le1 {A} (l : list A) : list (list A) := [] :: map (fun x => [x]) l.
+Definition enum_updates : list server_msg :=
+  flat_map (fun g => flat_map (fun us => map (fun ch => upd_event g (mkU ch us)) (lists_le1 all_entries)) (lists_le2 all_entries))
+           [GParticipants; GRoomlist].
+Definition enum_entries : list (fstate * server_msg) := list_prod enum_stages enum_updates.
+
+Lemma enum_entries_repaired_ok :
+  forallb (fun sm => is_ok (recv repaired false (fst sm) (snd sm)) && is_ok (recv repaired true (fst sm) (snd sm)))%bool enum_entries = true.
+Proof. vm_compute. reflexivity. Qed.
+
+(* a validation going by either spelling of the member, as updateEventUsers does *)
+Definition either_sid (u : uentry) : bool :=
+  match u with UEnt up lo _ => (is_str up || is_str lo)%bool | UNil => false end.
+Definition either_accepts (sm : fstate * server_msg) : bool :=
+  match m_event (snd sm) with
+  | Some e => match e_update e with Some u => forallb either_sid (u_users u ++ u_changed u) | None => false end
+  | None => false
+  end.
+
+(* 142 604 (stage, update event) pairs; without the validation 41 810 of them end the
+   process (all in ClientSession.filterMessage); 14 085 of those consist only of entries
+   that have a string id under one of the two spellings *)
+Lemma enum_entries_counts :
+  count (fun _ => true) enum_entries = 142604%N /\
+  count (panics no_validation false) enum_entries = 41810%N /\
+  count (panics original false) enum_entries = 41810%N /\
+  count (fun sm => (either_accepts sm && panics no_validation false sm)%bool) enum_entries = 14085%N /\
+  count (fun sm => (valid (snd sm) && panics no_validation false sm)%bool) enum_entries = 0%N.
+Proof. vm_compute. repeat split; reflexivity. Qed.
